@@ -139,6 +139,26 @@ Theorem C18_prepare_history_independent :
       SPrep (fst r) (snd r).
 Proof. exact prepare_history_independent. Qed.
 
+(** State left behind by a refused call: an assignment [info.mask = m] (or [copy_with(mask=m)])
+    whose explicit mask does not have the grid's data shape is refused (FinamMetaDataError) and
+    leaves the info exactly as it was, so every later prepare / accepts behaves as if the refused
+    call had never happened; and in every reachable state the info's explicit mask has the
+    grid's data shape. *)
+Theorem C18_refused_unchanged :
+  forall (st : info_state) (op : info_op) (ops : list info_op),
+    snd (info_step st op) = SRefused ->
+    fst (info_step st op) = st
+    /\ info_run st (op :: ops) = SRefused :: info_run st ops.
+Proof.
+  intros st op ops H. split; [apply refused_unchanged | apply refused_invisible]; exact H.
+Qed.
+
+Theorem C18_mask_fits_grid :
+  forall (st : info_state) (ops : list info_op),
+    mask_fits (i_shape st) (i_mask st) = true ->
+    mask_fits (i_shape (info_final st ops)) (i_mask (info_final st ops)) = true.
+Proof. intros st ops H. exact (info_final_wf ops st H). Qed.
+
 (** * Non-vacuity *)
 
 Definition ex_a : arr Z := of_list OC [3; 2] [10; 11; 12; 13; 14; 15]%Z 0%Z.
@@ -195,6 +215,17 @@ Example C18_history_nonvacuous :
      SPrep [0; 1; 2; 3; 4; 5]%Z (Some [true; true; false; false; false; false])].
 Proof. vm_compute. reflexivity. Qed.
 
+(** a transposed (2x3 instead of 3x2) mask is refused and the following flat prepare still
+    applies the old fixed mask *)
+Example C18_refused_nonvacuous :
+  let st := mkinfo [3; 2] OC (GStruct false [true; true]) (MBits ex_m2) in
+  let bad := ISetMask (mkbits [2; 3] [false; false; true; false; false; true]) in
+  snd (info_step st bad) = SRefused
+  /\ mask_fits (i_shape st) (i_mask st) = true
+  /\ info_run st [bad; IPrepare Flat [0; 1; 2; 3; 4; 5]%Z]
+     = [SRefused; SPrep [0; 1; 2; 3; 4; 5]%Z (Some [true; true; false; false; false; false])].
+Proof. repeat split; vm_compute; reflexivity. Qed.
+
 Print Assumptions C18_roundtrip.
 Print Assumptions C18_roundtrip_unmasked.
 Print Assumptions C18_compress_length.
@@ -203,3 +234,5 @@ Print Assumptions C18_acceptance_table.
 Print Assumptions C18_exchange.
 Print Assumptions C18_canonical_invertible.
 Print Assumptions C18_prepare_history_independent.
+Print Assumptions C18_refused_unchanged.
+Print Assumptions C18_mask_fits_grid.
